@@ -30,7 +30,8 @@ def log(I, n):
 
 
 # what load_event / load_value may raise for a hostile packet (verified on their bodies for every JSON value)
-DECLARED_RAISES = ('TypeError', 'ValueError', 'KeyError', 'AttributeError', 'RecursionError')
+DECLARED_RAISES = ('TypeError', 'ValueError', 'KeyError', 'AttributeError', 'RecursionError', 'JSONDecodeError')
+JSON_EXC = {'JSONDecodeError': 'ValueError'}
 
 
 def escape_post(I, v):
@@ -50,32 +51,36 @@ def ab_setup(I):
 
 
 def s_process_packet(I, recv, args, kw):
-    """contract of Protocol.__process_packet (verified below): handles the packet, raises a ValueError (undecodable bytes), or lets
-    an AttributeError / TypeError / RecursionError caused by a hostile packet escape"""
+    """contract of Protocol.__process_packet (verified below): handles the packet, raises a ValueError (undecodable bytes or not a
+    JSON document), or lets an AttributeError / TypeError / RecursionError caused by a hostile packet escape"""
     (p,) = args
-    log(I, 'PROCESSED').append(p.t)
+    p = lib.unopt(I, p)
+    c = I.st.choice(6, 'packet_outcome')
+    log(I, 'PROCESSED').append((p.t, c))
     cover(I, 'processed')
-    c = I.st.choice(5, 'packet_outcome')
     if c:
-        lib.raise_(I, ('UnicodeDecodeError', 'AttributeError', 'TypeError', 'RecursionError')[c - 1], VStr('hostile packet'))
+        lib.raise_(I, ('UnicodeDecodeError', 'JSONDecodeError', 'AttributeError', 'TypeError', 'RecursionError')[c - 1], VStr('hostile or incomplete packet'))
     return NONE
 
 
-def ab_entry(I):
-    self = I.local('self')
-    g = I.st.ghost
-    whole = z3.Concat(g['BUF0'], g['DATA0'])
-    I.oblige('V1.reads_only_stash_plus_data', z3.BoolVal(True))
-    packets = I.local('packets')
-    g['PACKETS'] = packets
+def s_split_buffer(I, recv, args, kw):
+    """self.__buffer.split(DELIMITER): trusted bytes.split; what is split is recorded (V1: stash + data)"""
+    I.st.ghost['SPLIT_OF'] = recv.t
+    r = lib.str_method(I, recv, 'split', list(args), kw)
+    I.st.ghost['PACKETS'] = r
+    return r
 
 
 def ab_iter(I):
-    """an arbitrary iteration processed packets[k]: only delimiter-terminated pieces are complete packets"""
+    """an arbitrary iteration of the loop over the delimiter-terminated pieces processed exactly that piece"""
     packets = I.local('__iter0')
     k = I.local('__idx0').t - 1
-    I.oblige('V1.stash.unterminated_tail_is_not_processed', k < packets.hi - 1,
-             detail='the piece after the last delimiter is an incomplete packet: it must wait in the buffer for the rest')
+    pr = log(I, 'PROCESSED')
+    I.oblige('V1.terminated_piece_processed_exactly_once', z3.BoolVal(len(pr) >= 1) if not pr else z3.And(pr[-1][0] == z3.Select(packets.arrs[0], k)))
+    allp = I.st.ghost.get('PACKETS')
+    if allp is not None:
+        I.oblige('V1.loop_covers_only_terminated_pieces', z3.And(packets.lo == allp.lo, packets.hi == allp.hi - 1),
+                 detail='every piece but the last was terminated by a delimiter: those are complete packets')
 
 
 def ab_post(I, outcome, ctx):
@@ -84,6 +89,26 @@ def ab_post(I, outcome, ctx):
         escape_post(I, v)
         return
     cover(I, 'return')
+    g = I.st.ghost
+    self = ctx['args']['self']
+    I.oblige('V1.reads_only_stash_plus_data', g.get('SPLIT_OF') is not None and g['SPLIT_OF'] == z3.Concat(g['BUF0'], g['DATA0']) if g.get('SPLIT_OF') is not None else z3.BoolVal(False),
+             detail='the pieces are those of stash + data (the data is empty when add_buffer() is called without argument)')
+    allp = g.get('PACKETS')
+    pr = log(I, 'PROCESSED')
+    if allp is None or not pr:
+        I.oblige('V1.tail_examined', z3.BoolVal(False))
+        return
+    tail = z3.Select(allp.arrs[0], allp.hi - 1)
+    last_piece, outcome_c = pr[-1]
+    I.oblige('V1.tail_examined_last', last_piece == tail, detail='the unterminated tail is looked at once, after the terminated pieces')
+    buf = I.fz(self, '_Protocol__buffer')
+    if outcome_c in (1, 2):
+        cover(I, 'tail_incomplete')
+        I.oblige('V1.stash.tail_that_is_not_a_packet_is_kept_whole', buf == tail,
+                 detail='a packet cut by a read boundary (undecodable or not JSON yet) waits in the buffer for the rest')
+    else:
+        cover(I, 'tail_complete')
+        I.oblige('V1.stash.nothing_kept_once_the_tail_was_accepted', buf == z3.StringVal(''))
 
 
 def ab_setup2(I):
@@ -116,11 +141,14 @@ sys.exit(1 if len(seen) != 1 else 0)
 
 SPECS.append(FucSpec(
     'C19', FILE, 'Protocol.add_buffer', ab_setup2, ab_post, fields=N_FIELDS,
-    calls={'self.__process_packet': s_process_packet}, env={'DELIMITER': VStr(b'~~~')},
-    loops={0: LoopSpec(inv=[('true', lambda I: z3.BoolVal(True))], havoc_fields=['_Protocol__buffer'], entry_hook=ab_entry, iter_hook=ab_iter)},
-    cover=['return', 'processed'], replay=ab_replay,
-    clause='add_buffer: only ordinary exceptions (absorbed by the dispatcher) escape for any bytes; packets are the delimiter-terminated pieces of stash + data; the unterminated '
-           'tail must be kept for the next read, not parsed'))
+    calls={'self.__process_packet': s_process_packet, 'self.__buffer.split': s_split_buffer}, env={'DELIMITER': VStr(b'~~~')}, exc_parents=JSON_EXC,
+    loops={0: LoopSpec(inv=[('true', lambda I: z3.BoolVal(True))], iter_hook=ab_iter)},
+    cover=['return', 'processed', 'tail_incomplete', 'tail_complete'], replay=ab_replay,
+    trusted=['JSON objects are self-delimiting: no proper prefix of a packet, and no packet followed by part of the delimiter, is a JSON '
+             'document - so a tail that __process_packet accepts is a complete packet (segmentation invariance then follows as in lemmas/Seg.lean)'],
+    clause='add_buffer: only ordinary exceptions escape for any bytes; the pieces are those of stash + data; every delimiter-terminated '
+           'piece is processed exactly once, in order; the unterminated tail is examined last and is kept whole in the buffer unless it '
+           'was accepted as a complete packet'))
 
 
 # ----------------------------------------------------------------------------- __process_packet: exception mapping
@@ -148,15 +176,15 @@ def sub(name):
         """contract of __process_packet_call / __process_packet_value (verified below): returns, or lets AttributeError,
         TypeError or RecursionError escape"""
         log(I, 'SUB').append(name)
-        c = I.st.choice(4, 'sub_outcome')
+        c = I.st.choice(5, 'sub_outcome')
         if c:
-            lib.raise_(I, ('AttributeError', 'TypeError', 'RecursionError')[c - 1])
+            lib.raise_(I, ('AttributeError', 'TypeError', 'RecursionError', 'JSONDecodeError')[c - 1])
         return NONE
     return f
 
 
 SPECS.append(FucSpec(
-    'C19', FILE, 'Protocol.__process_packet', pp_setup, pp_post, fields=N_FIELDS,
+    'C19', FILE, 'Protocol.__process_packet', pp_setup, pp_post, fields=N_FIELDS, exc_parents=JSON_EXC,
     calls={'self.__process_packet_value': sub('value'), 'self.__process_packet_call': sub('call')}, cover=['return', 'raise'],
     clause='__process_packet: an undecodable packet raises only UnicodeDecodeError (a ValueError, absorbed by add_buffer); otherwise it '
            'is interpreted exactly once, as a value or as a call'))
@@ -173,6 +201,7 @@ def s_load_event(I, recv, args, kw):
     """contract of load_event (verified below against every JSON value): an Event and an id, or one of DECLARED_RAISES"""
     c = I.st.choice(len(DECLARED_RAISES) + 1, 'load_event')
     if c:
+        I.st.ghost['LOAD_RAISED'] = DECLARED_RAISES[c - 1]
         lib.raise_(I, DECLARED_RAISES[c - 1])
     e = I.st.fresh_ref('Event')
     I.st.ghost['LOADED'] = e
@@ -187,7 +216,18 @@ def s_firewall(I, recv, args, kw):
     return VBool(r)
 
 
+def not_json_post(I, outcome):
+    """from the property ("however the connection segments the packets"): a text that is not (yet) a JSON document must be reported to
+    add_buffer (which keeps an unterminated tail for the next read), not swallowed as a malformed packet"""
+    kind, v = outcome
+    if I.st.ghost.get('LOAD_RAISED') == 'JSONDecodeError':
+        cover(I, 'not_json')
+        I.oblige('incomplete_json_is_reported_not_swallowed', z3.BoolVal(kind == 'raise' and v.cls == 'JSONDecodeError'),
+                 detail='JSONDecodeError from the loader must propagate (outcome: %s)' % (kind if kind != 'raise' else v.cls))
+
+
 def pc_post(I, outcome, ctx):
+    not_json_post(I, outcome)
     kind, v = outcome
     if kind == 'raise':
         escape_post(I, v)
@@ -233,7 +273,7 @@ def s_fire(I, recv, args, kw):
 
 
 SPECS.append(FucSpec(
-    'C19', FILE, 'Protocol.__process_packet_call', pc_setup, pc_post, fields=N_FIELDS,
+    'C19', FILE, 'Protocol.__process_packet_call', pc_setup, pc_post, fields=N_FIELDS, exc_parents=JSON_EXC,
     calls={'load_event': s_load_event, 'self.__receive_event_firewall': s_firewall, 'self.fire': s_fire,
            'self.send_result': lambda I, r, a, k: (log(I, 'RESULTS').append(a), NONE)[1], 'Value': lambda I, r, a, k: I.st.fresh_ref('Value')},
     attr_hooks={'event.channels': lambda I: VTuple([])}, cover=['return', 'malformed', 'dispatched'], replay=lambda model, ob: pc_replay(model, ob),
@@ -442,7 +482,7 @@ sys.exit(1 if bad else 0)
 
 
 SPECS.append(FucSpec(
-    'C19', UTILS, 'load_event', le_setup, le_post, calls=JSON_CALLS, env=json_env(),
+    'C19', UTILS, 'load_event', le_setup, le_post, calls=JSON_CALLS, env=json_env(), exc_parents=JSON_EXC,
     loops={0: LoopSpec(inv=[('true', lambda I: z3.BoolVal(True))])}, cover=['return', 'raise'], replay=le_replay,
     clause='load_event, for EVERY value json.loads can return: name/args/kwargs/id and the three feedback flags come from the packet '
            'fields (flags as bools), channels is a hashable tuple, no peer-chosen metadata key is a dunder or an attribute the '
@@ -475,7 +515,7 @@ def lv_post(I, outcome, ctx):
 
 
 SPECS.append(FucSpec(
-    'C19', UTILS, 'load_value', lv_setup, lv_post, calls=JSON_CALLS, env=json_env(), cover=['return', 'raise'],
+    'C19', UTILS, 'load_value', lv_setup, lv_post, calls=JSON_CALLS, env=json_env(), exc_parents=JSON_EXC, cover=['return', 'raise'],
     clause='load_value, for EVERY value json.loads can return: value/id/errors come from the packet fields, every metadata key '
            'it returns is neither a dunder nor an attribute the dispatcher reads, and only ordinary exceptions are raised'))
 
@@ -491,6 +531,7 @@ def s_load_value(I, recv, args, kw):
     """contract of load_value (verified above)"""
     c = I.st.choice(len(DECLARED_RAISES) + 1, 'load_value')
     if c:
+        I.st.ghost['LOAD_RAISED'] = DECLARED_RAISES[c - 1]
         lib.raise_(I, DECLARED_RAISES[c - 1])
     vals = [J.JsonV(core.fresh(n, J.A())) for n in ('value', 'id', 'errors')]
     n = core.fresh('n_meta', z3.IntSort())
@@ -515,6 +556,7 @@ def s_events_get(I, recv, args, kw):
 
 
 def pv_post(I, outcome, ctx):
+    not_json_post(I, outcome)
     kind, v = outcome
     sets, results = log(I, 'SETATTR'), log(I, 'SETVALUE')
     ev = I.st.ghost.get('PENDING')
@@ -536,7 +578,7 @@ def pv_post(I, outcome, ctx):
 
 
 SPECS.append(FucSpec(
-    'C19', FILE, 'Protocol.__process_packet_value', pv_setup, pv_post,
+    'C19', FILE, 'Protocol.__process_packet_value', pv_setup, pv_post, exc_parents=JSON_EXC,
     fields=dict(N_FIELDS, errors=Any), calls={'load_value': s_load_value, 'self.__events.get': s_events_get, 'setattr': s_setattr,
                                              'Value': lambda I, r, a, k: I.st.fresh_ref('Value'),
                                              '*.setValue': lambda I, r, a, k: (log(I, 'SETVALUE').append(a), NONE)[1]},
@@ -602,6 +644,10 @@ SPECS.append(CustomCheck('C19', 'META_EXCLUDE(structural)', meta_structural, fil
 SPECS.append(CustomCheck('C19', 'serialisation(bounded)', run_bounded('node_roundtrip.py', 'roundtrip', ''), bounded=True,
                          file='bounded/node_roundtrip.py',
                          clause='BOUNDED: load_event(dump_event(e)) / load_value(dump_value(v)) preserve name, args, kwargs, channels and flags'))
+SPECS.append(CustomCheck('C19', 'segmentation(bounded)', run_bounded('node_segmentation.py', 'segmentation', ''), bounded=True,
+                         file='circuits/node/protocol.py',
+                         clause='BOUNDED: call packets (small, unicode, > 4 KiB) delivered through add_buffer with every 2-way cut and '
+                                'byte-at-a-time dispatch the same events, once each, in order'))
 SPECS.append(CustomCheck('C19', 'hostile_packets(bounded)', run_bounded('node_hostile.py', 'hostile', ''), bounded=True,
                          file='bounded/node_hostile.py',
                          clause='BOUNDED: no packet from a grammar of JSON mutations and metadata keys stops the local event loop'))
